@@ -278,7 +278,7 @@ def c18_5(ctx):
     src_g = ast.unparse(rl.get(ctx, "compactfilter:decode_gcs")[1])
     mod, fn = rl.get(ctx, "compactfilter:serialize_gcs")
     if "delta = item - last_value" in src_s and "encode_golomb(delta, GOLOMB_P)" in src_s and "encode_varint(len(sorted_items)) + pack_bits(result)" in src_s \
-            and "num_items = read_varint(s)" in src_g and "decode_golomb(bits, GOLOMB_P)" in src_g and "current += delta" in src_g:
+            and "num_items = read_varint(s)" in src_g and "decode_golomb(bits, GOLOMB_P)" in src_g and ("current += delta" in src_g or "current += decode_golomb(bits, GOLOMB_P)" in src_g):
         out.append(ctx.ok("compactfilter:serialize_gcs↔decode_gcs", "N (compact size) ‖ Golomb-Rice coded deltas with P; decoder accumulates the deltas", fn, mod, key="gcs"))
     else:
         out.append(ctx.bad("compactfilter:serialize_gcs↔decode_gcs", "GCS serialisation / parsing are not N ‖ deltas(P) mirrored", fn, mod, key="gcs"))
